@@ -81,9 +81,11 @@ def run(tier, chk):
     for t in c05.sharing_trees(rnd, 800 if quick else 8000):
         v = dict(t, a=list(reversed(t['a']))) if t['o'] in AC else {'k': 'none'}
         pairs.append([t, v])
+    seg = segment_twin_trees(rnd, 300 if quick else 3000)
     if quick and len(pairs) > 30000:
         rnd.shuffle(pairs)
         pairs = pairs[:30000]
+    pairs += seg
     cases = [{'id': i, 'e': e, 'v': v} for i, (e, v) in enumerate(pairs)]
     res = run_workers(cases)
     recs = []
@@ -116,6 +118,29 @@ def run(tier, chk):
                             'simp_e': r['runs'][0]['txt'][0], 'simp_variant': r['runs'][0]['txt'][1],
                             'simp_simp_e': EJ.show(r['runs'][0]['sse']) if r['runs'][0]['sse'].get('k') != 'none' else None})
     run_dumps(tier, chk, rnd)
+
+
+def segment_twin_trees(rnd, n):
+    """AC operators whose operands are memory cells that differ ONLY in their segment selector (same address, same size),
+    directly or inside an address; the variant is the reversed operand list"""
+    def cell(w, seg, addr):
+        return {'k': 'mem', 'w': w, 'a': [addr], 'g': [] if seg is None else [{'k': 'id', 'w': 16, 'n': seg}]}
+    out = []
+    while len(out) < n:
+        w = rnd.choice([8, 32, 32])
+        addr = {'k': 'id', 'w': 32, 'n': rnd.choice(['x32', 'y32'])}
+        if rnd.random() < 0.4:
+            addr = {'k': 'op', 'w': 32, 'o': '+', 'u': 0, 'a': [addr, {'k': 'int', 'w': 32, 'v': core.limbs(rnd.choice([4, 8, 0x1000]), 32)}]}
+        segs = rnd.sample([None, 'es', 'ds', 'fs', 'gs', 'ss', 'cs'], rnd.choice([2, 2, 3, 4]))
+        args = [cell(w, sg, addr) for sg in segs]
+        if rnd.random() < 0.4:
+            args.insert(rnd.randrange(len(args) + 1), {'k': 'id', 'w': w, 'n': 'z%d' % w})
+        t = {'k': 'op', 'w': w, 'o': rnd.choice(AC), 'u': 0, 'a': args}
+        v = dict(t, a=list(reversed(args)))
+        if w == 32 and rnd.random() < 0.3:       # the twins inside an address
+            t, v = cell(8, None, t), cell(8, None, v)
+        out.append([t, v])
+    return out
 
 
 def run_dumps(tier, chk, rnd):
